@@ -30,9 +30,21 @@ def gen_case(rng, max_events=40):
     pubs = []
     last = [None] * n
     pullers = [k for k in range(n) if eps[k] not in PUSH_BASED]
+    # consumers behind push-based adapters pull too (from the adapter's buffer, between and on publications): the adapter
+    # is the output's end point, its own retained history is bounded the same way
+    buffered = [k for k in range(n) if eps[k] in PUSH_BASED]
+    blast = {k: None for k in buffered}
     nev = rng.randrange(4, max_events)
     for _ in range(nev):
         r = rng.random()
+        if pubs and buffered and r > 0.85:
+            k = rng.choice(buffered)
+            lo = blast[k] if blast[k] is not None else pubs[0]
+            if pubs[-1] >= lo:
+                tt = lo + rng.randrange(0, (pubs[-1] - lo) // max(scale // 2, 1) + 1) * max(scale // 2, 1)
+                events.append(["bpull", k, tt])
+                blast[k] = tt
+            continue
         if not pubs or r < 0.4 or not pullers:
             t = t + rng.choice(gaps) * scale if pubs else t
             pubs.append(t)
@@ -138,6 +150,8 @@ def run_impl(case, unlimited=False):
                 answers.append({"ok": int(round(scalar(v)))})
             except Exception as e:  # noqa
                 answers.append({"err": err_class(e)})
+            if ev[0] == "bpull":
+                answers[-1] = dict(answers[-1], buffer=len(regs[k].data))   # regs[k]: the push-based adapter of end point k
         lens.append(len(out.data))
     lasts = [us(out._connected_inputs[r]) if r in out._connected_inputs else "not-registered" for r in regs]
     return {"answers": answers, "lens": lens, "registered_ok": reg_ok, "lasts": lasts}
@@ -157,6 +171,8 @@ def model_request(case):
                 if kind in PUSH_BASED:
                     evs.append(["pull", k, ev[1]])
                     group.append(gi)
+        elif ev[0] == "bpull":
+            continue   # answered from the adapter's buffer: the output does not see it
         else:
             evs.append(["pull", ev[1], effective_request(case, gi)])
             group.append(gi)
@@ -187,7 +203,7 @@ def compare(case, impl, model, group):
             a, b = impl["answers"][gi], m_answers[gi]
             if a != b:
                 return {"event": gi, "impl": a, "model": b}
-        if impl["lens"][gi] != m_lens[gi]:
+        if gi in m_lens and impl["lens"][gi] != m_lens[gi]:
             return {"event": gi, "impl_len": impl["lens"][gi], "model_len": m_lens[gi]}
     if not impl["registered_ok"]:
         return {"registered": "the object registered at the output differs from the model's `registered`"}
@@ -209,6 +225,15 @@ def oracle(case, impl):
             seen.append(ev[1])
             continue
         a = impl["answers"][gi]
+        if ev[0] == "bpull":
+            # the adapter's own retained history: the last entry at or before the request and everything newer
+            if a and "ok" in a:
+                bound = sum(1 for p in seen if p > ev[2]) + 1
+                if a["buffer"] > bound:
+                    return ("retained history stays bounded: a push-based adapter keeps the publications newer than its consumer's "
+                            "last request and one more", {"event": gi, "end_point": case["endpoints"][ev[1]], "request": ev[2],
+                                                          "retained_by_the_adapter": a["buffer"], "bound": bound})
+            continue
         if case["endpoints"][ev[1]] in PUSH_BASED or not a or "ok" not in a or not seen:
             continue
         r = effective_request(case, gi)
@@ -230,6 +255,8 @@ def oracle(case, impl):
             for k, kind in enumerate(eps):
                 if kind in PUSH_BASED:
                     last[k] = ev[1]
+        elif ev[0] == "bpull":
+            pass
         elif "ok" in (impl["answers"][gi] or {}):
             last[ev[1]] = effective_request(case, gi)
         if all(x is not None for x in last):
